@@ -126,7 +126,21 @@ def instrumented(est=None, shuffle_wrapper=None):
     obs.np = NpShim()
     obs.tests = []
     obs.lasso = []
-    saved = {k: getattr(D, k) for k in ("np", "conditional_mutual_information", "shuffle_test", "lasso_optimal_causation_entropy", "information_lasso_optimal_causation_entropy")}
+    obs.fits = []       # (class name, design shape, fitted coefficient vector) of every sklearn LASSO fit
+    saved = {k: getattr(D, k) for k in ("np", "conditional_mutual_information", "shuffle_test", "lasso_optimal_causation_entropy", "information_lasso_optimal_causation_entropy", "Lasso", "LassoLarsIC")}
+
+    def fit_spy(real_cls, name):
+        def make(*a, **k):
+            est_ = real_cls(*a, **k)
+            real_fit = est_.fit
+
+            def fit(X, y, *aa, **kk):
+                r = real_fit(X, y, *aa, **kk)
+                obs.fits.append((name, tuple(np.asarray(X).shape), np.array(est_.coef_, copy=True)))
+                return r
+            est_.fit = fit
+            return est_
+        return make
     real_shuffle = D.shuffle_test
     depth = {"lasso": 0}
 
@@ -156,6 +170,8 @@ def instrumented(est=None, shuffle_wrapper=None):
     if est is not None:
         D.conditional_mutual_information = est
     D.shuffle_test = shuffle_spy
+    D.Lasso = fit_spy(saved["Lasso"], "Lasso")
+    D.LassoLarsIC = fit_spy(saved["LassoLarsIC"], "LassoLarsIC")
     D.lasso_optimal_causation_entropy = lasso_wrap(saved["lasso_optimal_causation_entropy"])
     D.information_lasso_optimal_causation_entropy = lasso_wrap(saved["information_lasso_optimal_causation_entropy"])
     try:
@@ -218,7 +234,7 @@ def observe(data, est, **params):
             return {"error": type(e).__name__, "obs": obs}
     perms = [p for (k, p) in obs.np.log if k == "permutation"]
     other = [k for (k, p) in obs.np.log if k != "permutation"]
-    return {"G": G, "obs": obs, "perms": perms, "other_rng": other, "seeds": list(obs.np.seeds), "lasso": list(obs.lasso),
+    return {"G": G, "obs": obs, "perms": perms, "other_rng": other, "seeds": list(obs.np.seeds), "lasso": list(obs.lasso), "fits": list(obs.fits),
             "tests": obs.tests, "args": list(obs.np.args)}
 
 
